@@ -366,4 +366,78 @@ example : fullExpandB { vars := [("s".toList, "a b".toList), ("s".toList, "hidde
       [.braces [[.plain (.base (.param (.named "s".toList)))], [.dq [.base (.param (.allPos false))]]]] :=
   (word_expansion_reads_only_visible_state _ _ (sameView_shadow { args := ["p".toList] } _ _ _) _ _ _).1
 
+/-! ## the history of IFS does not matter
+
+The model's expansion takes the environment (with IFS in it) as an argument and has no other memory, so the statement
+below is short on the model. Its content is in the correspondence: the "IFS history" family of `tools/c05.py` runs
+sequences of these events through brush and bash (plain / `declare` / `typeset` / `export` / `readonly` / `declare -g`
+assignments, `unset`, `local` once and twice, prefix assignments, subshells, function return) with expansions in
+between, and compares every list with the model's for the IFS in force at that point (env.rs: `update_or_add`,
+`get_mut`, `get_mut_using_policy`, `add`, `unset`, `pop_scope`; `Shell::ifs`). -/
+
+/-- what can happen to IFS between two expansions -/
+inductive IfsEvent where
+  /-- `IFS=v`, `declare`/`typeset`/`export`/`readonly IFS=v`, `declare -g IFS=v`, a second `local IFS=v` -/
+  | assign (v : Str)
+  /-- `unset IFS` -/
+  | unset
+  /-- a scope with its own IFS begins: first `local IFS=v` in a function, `IFS=v cmd`, `( IFS=v; … )` -/
+  | enterLocal (v : Str)
+  /-- that scope ends: the shadowed value is visible again -/
+  | leave
+  /-- a word is expanded (this consults IFS and changes nothing) -/
+  | expand (w : BWord)
+
+/-- the environment after a history; the second component is the stack of shadowed IFS values -/
+def runIfs : Env → List (Option Str) → List IfsEvent → Env × List (Option Str)
+  | e, st, [] => (e, st)
+  | e, st, .assign v :: r => runIfs { e with ifs := some v } st r
+  | e, st, .unset :: r => runIfs { e with ifs := none } st r
+  | e, st, .enterLocal v :: r => runIfs { e with ifs := some v } (e.ifs :: st) r
+  | e, [], .leave :: r => runIfs e [] r
+  | e, s :: st, .leave :: r => runIfs { e with ifs := s } st r
+  | e, st, .expand _ :: r => runIfs e st r
+
+private theorem runIfs_changes_only_ifs (e : Env) (st : List (Option Str)) (h : List IfsEvent) :
+    (runIfs e st h).1 = { e with ifs := (runIfs e st h).1.ifs } := by
+  induction h generalizing e st with
+  | nil => rfl
+  | cons ev r ih =>
+    cases ev with
+    | assign v => rw [runIfs]; exact ih _ _
+    | unset => rw [runIfs]; exact ih _ _
+    | enterLocal v => rw [runIfs]; exact ih _ _
+    | expand w => rw [runIfs]; exact ih _ _
+    | leave =>
+      cases st with
+      | nil => rw [runIfs]; exact ih _ _
+      | cons s st => rw [runIfs]; exact ih _ _
+
+/-- **fields_depend_on_current_ifs_only**: two histories (any assignments, unsets, scopes entered and left, expansions
+in between) that end with the same visible IFS give the same argument list for every word — brush's expansion and the
+reference semantics alike. Nothing but the current value is remembered. -/
+theorem fields_depend_on_current_ifs_only (e : Env) (h1 h2 : List IfsEvent) (opts : Opts) (names : List Str) (w : BWord)
+    (hifs : (runIfs e [] h1).1.ifs = (runIfs e [] h2).1.ifs) :
+    fullExpandB (runIfs e [] h1).1 opts names w = fullExpandB (runIfs e [] h2).1 opts names w ∧
+    specExpandB (runIfs e [] h1).1 opts names w = specExpandB (runIfs e [] h2).1 opts names w := by
+  have a := runIfs_changes_only_ifs e [] h1
+  have b := runIfs_changes_only_ifs e [] h2
+  rw [a, b, hifs]
+  exact ⟨rfl, rfl⟩
+
+/-- `IFS=' '; $v; local IFS=:; $v; declare IFS=' '` against a plain `IFS=' '`: same lists -/
+example : fullExpandB (runIfs { vars := [("v".toList, "a b:c".toList)] } []
+      [.assign " ".toList, .expand [], .enterLocal ":".toList, .expand [], .assign " ".toList]).1 {} []
+      [.piece (.plain (.base (.param (.named "v".toList))))] = some ["a".toList, "b:c".toList] :=
+  (fields_depend_on_current_ifs_only _ _ [.assign " ".toList] {} [] _ rfl).1.trans (by decide)
+
+/-- **stale_ifs_changes_fields**: the value matters — there are a word, a variable value and two IFS values for which
+the lists differ, so an expansion that used a remembered IFS after an assignment would be observable
+(`v=$'a b\tc'`: three arguments under the default IFS, two after `declare IFS=' '`). -/
+theorem stale_ifs_changes_fields : ∃ (w : BWord) (e : Env) (old new : Str),
+    fullExpandB (runIfs e [] [.assign old, .expand w, .assign new]).1 {} [] w ≠
+    fullExpandB { e with ifs := some old } {} [] w :=
+  ⟨[.piece (.plain (.base (.param (.named "v".toList))))], { vars := [("v".toList, "a b\tc".toList)] },
+    " \t\n".toList, " ".toList, by decide⟩
+
 end BrushVerif.C05
